@@ -75,6 +75,18 @@ CLAIMS = {
 }
 NA = {}
 
+# clauses added in seeding round 8 (DESIGN.md 9.5 "Round 8")
+ROUND8 = {
+ "C01": "Every extracted transition is an edge of the SHIP state graph (imported from C04.R1).",
+ "C02": "The SKI canonicalisation applies nothing but separator removal and case folding (imported from C15.R2).",
+ "C08": "No receive-side message size limit (imported from C06.R7).",
+ "C10": "UnregisterRemoteSKI revokes trust before it closes the connection; every constructed connection is registered (imported from C05.R4).",
+ "C11": "HandleConnectionClosed examines the registry before it tells the application; no approval after a decode error (imported from C09.R1).",
+ "C13": "What the read pump delivers is the complete result of one successful library read (imported from C06.R7).",
+ "C15": "The normaliser calls no trimming or other case function.",
+ "C17": "No byte-wise comparison of net.IP values.",
+}
+
 # clauses added in seeding round 7 (DESIGN.md 9.5 "Round 7")
 ROUND7 = {
  "C01": "Only UnregisterRemoteSKI / CancelPairingWithSKI clear the trusted flag; no handshake state but the initial one maps to the dial permission Queued (imported from C18.R3).",
@@ -146,6 +158,8 @@ for p in props:
             text = text + " Round 6: " + ROUND6[i]
         if i in ROUND7:
             text = text + " Round 7: " + ROUND7[i]
+        if i in ROUND8:
+            text = text + " Round 8: " + ROUND8[i]
         checks.append({
             "property_id": i,
             "quick_cmd": f"./check.sh {i} quick",
